@@ -107,3 +107,23 @@ Definition closure_state_ok : bool :=
   && match parser_field_writes with [] => true | _ => false end
   && existsb (fun c => String.eqb (fst c) "whereSubjectClause") closure_writes
   && existsb (fun c => String.eqb (fst c) "dataAccumulator") closure_writes.
+
+(* ---------- the token kinds the two stateful closures can be handed (from the regenerated attachment table) lie inside the
+   alphabets over which their machines are validated against the real closures (h_parse -mode hooks drives exactly these
+   kinds): a grammar edit that lets another kind of token reach one of the closures leaves the machine without a tie *)
+Definition toks_attached (name : string) : list N :=
+  flat_map (fun s => flat_map (fun ia => if attached_by name s (fst ia)
+                                          then flat_map (fun e => match e with T t => [t] | _ => [] end) (snd ia) else [])
+                              (combine (seq 0 (List.length (rules sbql s))) (rules sbql s))) (keys sbql).
+
+Definition da_alphabet : list N :=
+  [tk_INSERT; tk_DELETE; tk_NODE; tk_PREDICATE; tk_LITERAL; tk_DATA; tk_DOT; tk_LEFT_BRACKET; tk_BINDING;
+   tk_INTO; tk_FROM; tk_RIGHT_BRACKET; tk_SEMICOLON].
+Definition gb_alphabet : list N :=
+  [tk_BEFORE; tk_AFTER; tk_BETWEEN; tk_COMMA; tk_TIME; tk_PREDICATE_BOUND; tk_SEMICOLON].
+
+Definition closure_alphabet_ok : bool :=
+  forallb (fun t => existsb (N.eqb t) da_alphabet) (toks_attached "dataAccumulator")
+  && forallb (fun t => existsb (N.eqb t) gb_alphabet) (toks_attached "collectGlobalBounds")
+  && negb (match toks_attached "dataAccumulator" with [] => true | _ => false end)
+  && negb (match toks_attached "collectGlobalBounds" with [] => true | _ => false end).
